@@ -1173,6 +1173,9 @@ func (e *Env) call(x *ECall) *SVal {
 			if v.K == KSlice {
 				return mkBool(sEq(v.Sub[0].Term, bv64(0)))
 			}
+			if v.Term == "" {
+				e.fail("isnil: operand %s has no scalar value here", x.Args[0].exprString())
+			}
 			return mkBool(sEq(v.Term, bv64(0)))
 		case "dyntype": // dyntype(x, T): dynamic type of interface x is T
 			v := e.eval(x.Args[0])
